@@ -12,8 +12,9 @@
 (*   nbrs: <<[f, fs]>> for sampled faces, panic]                            *)
 (*  vertices  - VertexSlice is exactly the vertex set of F (no stale vertex)*)
 (*  find      - Find(v) / Find(a, b) are exactly the faces containing them  *)
-(*  neighbors - Neighbors(f) are exactly the other faces sharing >= 2       *)
-(*              vertices with f                                             *)
+(*  neighbors - Neighbors(f) are exactly the other faces that a freshly     *)
+(*              built list gives: those holding >= 2 of f's three corners   *)
+(*              (corners counted by position, as for a degenerate f)        *)
 (***************************************************************************)
 EXTENDS Integers, Sequences, FiniteSets, TLC, Json
 Recs == ndJsonDeserialize("records.ndjson")
@@ -32,7 +33,7 @@ Holds(c) ==
                        /\ \A k \in 1..Len(R.find2) : SeqSet(R.find2[k].fs) = With({R.find2[k].a, R.find2[k].b}) /\ NoDup(R.find2[k].fs)
       [] c = "neighbors" -> \A k \in 1..Len(R.nbrs) :
                                LET f == R.nbrs[k].f IN
-                               /\ SeqSet(R.nbrs[k].fs) = {i \in (1..Len(R.F)) \ {f} : Cardinality(VOf(i) \cap VOf(f)) >= 2}
+                               /\ SeqSet(R.nbrs[k].fs) = {i \in (1..Len(R.F)) \ {f} : Cardinality({q \in 1..3 : R.F[f][q] \in VOf(i)}) >= 2}
                                /\ NoDup(R.nbrs[k].fs)
       [] OTHER -> TRUE
 Fails == {c \in {"panic", "vertices", "find", "neighbors"} : ~Holds(c)}
